@@ -1,0 +1,116 @@
+//go:build verif
+
+// Contracts for config.go and metrics.go of package varmq, checked by /verif (vq). Comment-only file: no executable code.
+package varmq
+
+//@ package varmq
+
+// ---------------------------------------------------------------- config.go
+// withSafeConcurrency: n < 1 means "number of CPUs"; otherwise n itself -- and never 0 (a worker with limit 0 would never dispatch).
+//@ func withSafeConcurrency
+//@   props C02 C14 C18
+//@   ensures [positive] result >= 1
+//@   ensures [exact]    concurrency >= 1 && concurrency <= MaxUint32 ==> result == concurrency
+
+//@ func clampPercentage
+//@   props C18
+//@   ensures [range] 1 <= result && result <= 100
+//@   ensures [exact] percentage >= 1 && percentage <= 100 ==> result == percentage
+//@   ensures [low]   percentage == 0 ==> result == 1
+//@   ensures [high]  percentage > 100 ==> result == 100
+
+//@ func newConfig
+//@   props C02 C14 C15
+//@   modifies $alloc
+//@   ensures result.concurrency == 1 && result.strategy == RoundRobin && result.jobIdGenerator != nil && result.ctx == nil && result.idleWorkerExpiryDuration == 0 && result.minIdleWorkerRatio == 0
+
+// ---------------------------------------------------------------- metrics.go
+//@ func metrics.incSubmitted
+//@   props C17
+//@   requires m.submitted < MaxUint64
+//@   modifies m.submitted
+//@   ensures m.submitted == old(m.submitted) + 1
+//@ func metrics.incCompleted
+//@   props C17
+//@   requires m.completed < MaxUint64
+//@   modifies m.completed
+//@   ensures m.completed == old(m.completed) + 1
+//@ func metrics.incSuccessful
+//@   props C17
+//@   requires m.successful < MaxUint64
+//@   modifies m.successful
+//@   ensures m.successful == old(m.successful) + 1
+//@ func metrics.incFailed
+//@   props C17
+//@   requires m.failed < MaxUint64
+//@   modifies m.failed
+//@   ensures m.failed == old(m.failed) + 1
+//@ func metrics.Submitted
+//@   props C17
+//@   ensures result == m.submitted
+//@ func metrics.Completed
+//@   props C17
+//@   ensures result == m.completed
+//@ func metrics.Successful
+//@   props C17
+//@   ensures result == m.successful
+//@ func metrics.Failed
+//@   props C17
+//@   ensures result == m.failed
+//@ func metrics.Reset
+//@   props C17
+//@   modifies m.submitted, m.completed, m.successful, m.failed
+//@   ensures m.submitted == 0 && m.completed == 0 && m.successful == 0 && m.failed == 0
+
+// ---------------------------------------------------------------- options
+// A well-formed configuration: the limit is at least 1, the idle ratio at most 100, the expiry non-negative, an id generator is present.
+//@ pred ConfigOK(c *configs) := c != nil && c.concurrency >= 1 && c.minIdleWorkerRatio <= 100 && c.jobIdGenerator != nil
+//@ assumption: every ConfigFunc is one of the library's With* options (the configs struct has only unexported fields, so no other package can write a meaningful one); WithJobIdGenerator and WithIdleWorkerExpiryDuration are given a non-nil function / a non-negative duration
+
+//@ functype ConfigFunc
+//@   requires arg0 != nil
+//@   modifies $deref(arg0)
+//@   ensures  ConfigOK(arg0) || !old(ConfigOK(arg0))
+
+//@ func WithConcurrency$1
+//@   props C02 C14
+//@   requires c != nil
+//@   modifies c.concurrency
+//@   ensures c.concurrency >= 1 && ($deref(concurrency) >= 1 && $deref(concurrency) <= MaxUint32 ==> c.concurrency == $deref(concurrency))
+
+//@ func WithMinIdleWorkerRatio$1
+//@   props C18
+//@   requires c != nil
+//@   modifies c.minIdleWorkerRatio
+//@   ensures 1 <= c.minIdleWorkerRatio && c.minIdleWorkerRatio <= 100
+
+//@ func WithStrategy$1
+//@   props C15
+//@   requires c != nil
+//@   modifies c.strategy
+//@   ensures c.strategy == $deref(s)
+
+//@ func WithContext$1
+//@   props C14
+//@   requires c != nil
+//@   modifies c.ctx
+//@   ensures c.ctx == $deref(ctx)
+
+// mergeConfigs / loadConfigs: options are applied in order; a bare int sets the limit through withSafeConcurrency.
+//@ func mergeConfigs
+//@   props C02 C14
+//@   requires c.concurrency >= 1 && c.minIdleWorkerRatio <= 100 && c.jobIdGenerator != nil
+//@   modifies $usercalls, $alloc
+//@   ensures [ok] result.concurrency >= 1 && result.minIdleWorkerRatio <= 100 && result.jobIdGenerator != nil
+//@   loop 1: invariant 0 <= rangeindex + 1 && rangeindex + 1 <= len(cs) && ConfigOK($addr(c))
+//@   ghost before call funcvalue: assume config != nil
+
+//@ func loadConfigs
+//@   props C02 C14
+//@   modifies $usercalls, $alloc
+//@   ensures [ok] result.concurrency >= 1 && result.minIdleWorkerRatio <= 100 && result.jobIdGenerator != nil
+
+//@ func newMetrics
+//@   props C17
+//@   modifies $alloc
+//@   ensures result != nil
